@@ -461,3 +461,71 @@ def rule_hybridization_table(ck, repo, R):
                        file=f.file, line=inner[0].lineno, func=f.qualname)
     ck.ok(R, 'sequences', f'{n} bond-order sequences give the documented label')
     ck.count(f'{R}: sequences', n)
+
+
+def rule_simple_cycle_guard(ck, repo, R):
+    """C06: every ring candidate the SSSR search emits is a simple cycle. _c_set glues two shortest paths into a closed walk; where the paths share
+    an inner atom the walk visits it twice and is not a ring. Each emission site must therefore be control dependent on the test
+    len(walk) == len(set(walk)) over the very walk it emits (sibling sites of one generator agree)."""
+    from .astutil import reach_conditions, expand_locals, enclosing_map, single_defs
+    ck.rule(R, 'every `yield _canonic_ring(w)` of rings._c_set is reached only under len(w) == len(set(w)) for the same walk w (after expanding local names): '
+               'a walk through a shared inner atom is not emitted as a ring')
+    m = repo.module('chython.algorithms.rings')
+    f = m.functions.get('_c_set')
+    ck.require(f is not None, 'rings._c_set vanished')
+    pm = enclosing_map(f.node)
+    sites = [n for n in ast.walk(f.node) if isinstance(n, (ast.Yield, ast.YieldFrom)) and n.value is not None]
+    sites += [n for n in ast.walk(f.node) if isinstance(n, ast.Call) and isinstance(n.func, ast.Attribute) and n.func.attr in ('append', 'add')
+              and any(isinstance(c, ast.Call) and src(c.func) == '_canonic_ring' for a in n.args for c in ast.walk(a))]
+
+    def walk_of(site):
+        for c in ast.walk(site):
+            if isinstance(c, ast.Call) and src(c.func) == '_canonic_ring' and len(c.args) == 1:
+                return c.args[0]
+        return None
+    n = 0
+    for site in sites:
+        w = walk_of(site)
+        if w is None:
+            continue
+        n += 1
+        # local definitions valid at the site: names assigned once in the function, or once in the enclosing loop body (c = c1 + c2[-2:0:-1])
+        defs = {}
+        for a in ast.walk(f.node):
+            if isinstance(a, ast.Assign) and len(a.targets) == 1 and isinstance(a.targets[0], ast.Name):
+                defs.setdefault(a.targets[0].id, []).append(a)
+
+        def expand(e):
+            class T(ast.NodeTransformer):
+                def visit_Name(self, node):
+                    if isinstance(node.ctx, ast.Load) and node.id in defs:
+                        # the definition that dominates the site: the nearest one in an enclosing block, before the site
+                        best = None
+                        for a in defs[node.id]:
+                            blk_owner = pm.get(a)
+                            p_ = site
+                            while p_ is not None and p_ is not blk_owner:
+                                p_ = pm.get(p_)
+                            if p_ is blk_owner and a.lineno <= site.lineno:
+                                best = a if best is None or a.lineno > best.lineno else best
+                        if best is not None and not any(isinstance(x, ast.Name) and x.id == node.id for x in ast.walk(best.value)):
+                            import copy as _c
+                            return self.visit(_c.deepcopy(best.value))
+                    return node
+            import copy as _c
+            return T().visit(_c.deepcopy(e))
+        target = src(expand(w))
+        ok = False
+        for c in reach_conditions(site, f.node, pm):
+            if isinstance(c, ast.Compare) and len(c.ops) == 1 and isinstance(c.ops[0], ast.Eq):
+                a, b = c.left, c.comparators[0]
+                for x, y in ((a, b), (b, a)):
+                    if isinstance(x, ast.Call) and src(x.func) == 'len' and isinstance(y, ast.Call) and src(y.func) == 'len' and len(x.args) == 1 and len(y.args) == 1 \
+                            and isinstance(y.args[0], ast.Call) and src(y.args[0].func) in ('set', 'frozenset') and len(y.args[0].args) == 1:
+                        if src(expand(x.args[0])) == target and src(expand(y.args[0].args[0])) == target:
+                            ok = True
+        ck.decide(ok, R, f'site:{target}', None,
+                  f'_c_set emits the closed walk `{target}` as a ring without the simple-cycle test len(w) == len(set(w)): when the two paths share an inner atom the "ring" '
+                  f'repeats that atom (its sibling emission sites keep the test)', file=m.relpath, line=site.lineno, func='_c_set', construct=src(site)[:120])
+    ck.count(f'{R}: emission sites', n)
+    ck.require(n >= 2, f'_c_set: {n} emission sites found, 2 confirmed by hand')
